@@ -32,7 +32,9 @@ def setup(i):
     sh('git', '-C', '/repo', 'worktree', 'add', '--detach', w + '/repo', 'HEAD')
     v = w + '/verif'
     os.makedirs(v + '/.work')
-    for d in ('vf', 'units', 'replay', 'replays_known', 'tools'):
+    for d in ('vf', 'units', 'replay', 'replays_known', 'tools', 'corpus'):
+        if not os.path.isdir(ROOT + '/' + d):
+            continue
         shutil.copytree(ROOT + '/' + d, v + '/' + d, ignore=shutil.ignore_patterns('__pycache__', 'target'))
     for f in ('check', 'known_findings.json', 'properties.jsonl'):
         shutil.copy(ROOT + '/' + f, v + '/' + f)
